@@ -3074,6 +3074,15 @@ class ChannelManager:
         if spec.psm is None:
             raise InvalidArgumentError('PSM cannot be None')
 
+        # Check that we can start a new connection: the identifier of a request
+        # that is still waiting for its response must not be used again
+        identifier = self.next_identifier(connection)
+        pending_connections = self.pending_credit_based_connections.setdefault(
+            connection.handle, {}
+        )
+        if identifier in pending_connections:
+            raise InvalidStateError('too many concurrent connection requests')
+
         # Create the channel
         logger.debug(
             'creating coc channel with cid=%s for psm %s', source_cids, spec.psm
@@ -3097,7 +3106,6 @@ class ChannelManager:
             connection_channels[source_cid] = channel
             channels.append(channel)
 
-        identifier = self.next_identifier(connection)
         request = L2CAP_Credit_Based_Connection_Request(
             identifier=identifier,
             spsm=spec.psm,
@@ -3107,9 +3115,6 @@ class ChannelManager:
             source_cid=source_cids,
         )
         connection_result = asyncio.get_running_loop().create_future()
-        pending_connections = self.pending_credit_based_connections.setdefault(
-            connection.handle, {}
-        )
         pending_connections[identifier] = (connection_result, channels)
         self.send_control_frame(
             connection,
